@@ -3,6 +3,7 @@ import Zc.Proofs.DecodeWork
 import Zc.Proofs.DecodeRefute
 import Zc.Proofs.DecodeAgreeMsg
 import Zc.Proofs.Utf8RoundTrip
+import Zc.Proofs.NameText
 /-! # C02 — the decoder is total, bounded and faithful on arbitrary datagrams
 
 `parse b` is the model of `DNSIncoming(b)` followed by `.answers()` (`Zc.Wire.DecodeLib`), a total
@@ -280,5 +281,73 @@ theorem C02_agrees_strict_text (b : Bytes) (m : WMsg) (h : Strict.decode b = som
 example : Utf8.decodeReplace (Utf8.encode [0xE9, 0x65E5, 0x672C, 0x1F600, 0x41]) = [0xE9, 0x65E5, 0x672C, 0x1F600, 0x41]
     ∧ Utf8.encode [0xE9, 0x65E5, 0x672C, 0x1F600, 0x41] = [0xC3, 0xA9, 0xE6, 0x97, 0xA5, 0xE6, 0x9C, 0xAC, 0xF0, 0x9F, 0x98, 0x80, 0x41] := by
   decide +kernel
+
+/-! ## text layer: the names as the `str`s a caller sees (work package TEXTGLUE)
+
+The model carries a decoded name as its labels (bytes); `_read_name` returns `'.'.join(labels) + '.'` with every label
+decoded `('utf-8', 'replace')` — `NameText.textOfLabels`. -/
+section text_layer
+open Zc.NameText
+
+/-- **`len(name)` is `nameLen`**: the number `_read_name` compares with `MAX_NAME_LENGTH` — and the 253 of this
+property — is the character count of the joined, `'replace'`-decoded text, trailing dot included (1 for the root) -/
+theorem C02_name_length_is_text_length (n : WName) : (textOfLabels n).length = nameLen n := textOfLabels_length n
+
+/-- **Short names, as strings**: every name on the returned object, as the `str` the caller reads, has at most 253 characters -/
+theorem C02_names_short_text (b : Bytes) (p : Parsed) (h : (parse b).parsed? = some p) :
+    ∀ n ∈ namesOf p, (textOfLabels n).length ≤ 253 := by
+  intro n hn
+  rw [textOfLabels_length]
+  exact C02_names_short_each b p h n hn
+
+/-- what `write_name` would write for a decoded name, for **every** wire name: the root becomes the single empty label
+(`00 00` on the wire), every other label is decoded, split at its dots, and the pieces are encoded -/
+theorem C02_reencoded_labels (n : WName) :
+    labelsOfText (textOfLabels n) =
+      if n.isEmpty then [[]] else n.flatMap (fun l => (splitOn 0x2E (Utf8.decodeReplace l)).map Utf8.encode) :=
+  labelsOfText_textOfLabels n
+
+/-- the decode-side sentence at full strength: *the text of a decoded name determines its labels* (so that handing the
+name back to the encoder writes the name that was received) — for names of well-formed text labels -/
+def C02_text_determines_labels : Prop :=
+  ∀ n : WName, n ≠ [] → (∀ l ∈ n, Utf8.IsText l ∧ 1 ≤ l.length ∧ l.length ≤ 63) → labelsOfText (textOfLabels n) = n
+
+/-- **Refuted: a dot inside a wire label.**  The label `61 2e 62` (`a.b`, as DNS-SD instance names routinely contain)
+followed by `6c` decodes to the text `a.b.l.`, which `write_name` splits into *three* labels `a`, `b`, `l`: the joined
+text cannot tell a literal `2e` byte from a label boundary.  (What the real code does on it — `DNSIncoming` gives
+`'a.b.l.'`, `DNSOutgoing.write_name` of that writes `01 61 01 62 01 6c 00` — is replayed in `harness/c02.py`, stream
+`text-layer`; this is the library's representation of names, not a decoding fault: C02's agreement with the strict
+parser is stated on label lists and is unaffected.) -/
+theorem C02_text_determines_labels_refuted : ¬ C02_text_determines_labels := by
+  intro h
+  have := h [[0x61, 0x2e, 0x62], [0x6c]] (by decide)
+    (by
+      intro l hl
+      simp only [List.mem_cons, List.not_mem_nil, or_false] at hl
+      rcases hl with rfl | rfl
+      · exact ⟨⟨[0x61, 0x2e, 0x62], by decide, by decide⟩, by decide, by decide⟩
+      · exact ⟨⟨[0x6c], by decide, by decide⟩, by decide, by decide⟩)
+  exact absurd this (by decide)
+
+/-- … and that is the only obstacle: labels that are text **without a dot** are recovered exactly -/
+theorem C02_text_determines_labels_partial (n : WName) (hne : n ≠ [])
+    (h : ∀ l ∈ n, Utf8.IsText l ∧ dot ∉ decodeLabel l) : labelsOfText (textOfLabels n) = n :=
+  labelsOfText_textOfLabels_of_text n hne h
+
+/-- the witness on the decoder model itself: the datagram with the question name `03 61 2e 62 01 6c 00` is accepted by the
+strict parser and by the library's decoder with the two-label name; its text is `a.b.l.`; written back it has three labels.
+Likewise the root name (`00`, text `.`) is written back as the one empty label `['']` (`00 00`), a label that is not UTF-8
+(`ff 61`) comes back as `ef bf bd 61`, and a label that is just `2e` (text `..`) as two empty labels (`00 00 00`). -/
+example :
+    let pkt : Bytes := [0,0, 0,0, 0,1, 0,0, 0,0, 0,0,  3,0x61,0x2e,0x62, 1,0x6c, 0,  0,12, 0,1]
+    (Strict.decode pkt).map (fun m => m.questions.map (·.name)) = some [[[0x61,0x2e,0x62],[0x6c]]]
+    ∧ (parse pkt).parsed?.map (fun p => (p.valid, p.questions.map (fun q => textOfLabels q.name))) = some (true, ["a.b.l.".toList])
+    ∧ labelsOfText "a.b.l.".toList = [[0x61],[0x62],[0x6c]]
+    ∧ labelsOfText (textOfLabels []) = [[]]
+    ∧ labelsOfText (textOfLabels [[0xff, 0x61]]) = [[0xef, 0xbf, 0xbd, 0x61]]
+    ∧ labelsOfText (textOfLabels [[0x2e]]) = [[], []] := by
+  decide +kernel
+
+end text_layer
 
 end Zc
